@@ -20,13 +20,13 @@ from collections import defaultdict
 
 def work(args):
     seed, runs = args
-    from sim.kernel import subseed, Rngs
+    from sim.kernel import subseed, Rngs, Violation
     from engines import eqsim
     out = defaultdict(list)
     counts = defaultdict(int)
     for r in runs:
         rng = random.Random(subseed(seed, 'calib-cfg', r))
-        cfg = eqsim.make_cfg(rng, 'C04', {'steps': (1, 1), 'twin_runs': 0.5})
+        cfg = eqsim.make_cfg(rng, 'C04', {'steps': (1, 1), 'twin_runs': 0.5, 'regions': sorted(eqsim.REGIONS)})
         cfg['calib'] = True
         cfg['faults'] = False
         cfg['ftwin_rate'] = 0.
@@ -39,7 +39,12 @@ def work(args):
             ev['run'] = r
             if w.in_region(ev) or not w.pre(ev):
                 continue
-            obs = w.apply(ev)
+            try:
+                obs = w.apply(ev)
+            except Violation as v:
+                counts['violation:' + v.oracle] += 1
+                out['violation:' + v.oracle].append((float('inf'), 0., 0., v.msg))
+                continue
             counts['calls'] += 1
             counts['returned' if obs[0] == 'ok' else 'raised'] += 1
         for k, v in w.stats.items():
